@@ -135,6 +135,14 @@ func directedExprs(cx *lib.Ctx) {
 		{`!secret`, map[string]cty.Value{"secret": m(cty.False)}, map[string]cty.Value{"secret": m(cty.True)}},
 		{`secret && true`, map[string]cty.Value{"secret": m(cty.False)}, map[string]cty.Value{"secret": m(cty.True)}},
 		{`false || secret`, map[string]cty.Value{"secret": m(cty.False)}, map[string]cty.Value{"secret": m(cty.True)}},
+		// a computed object key derived from the marked value that collides with a later, unmarked key of the same
+		// constructor: which item survives depends on the content, so the mark of the key must survive too
+		{`{ (secret) = "from-secret", b = "lit" }`, map[string]cty.Value{"secret": m(s("b"))}, map[string]cty.Value{"secret": m(s("a"))}},
+		{`{ b = "lit", (secret) = "from-secret" }`, map[string]cty.Value{"secret": m(s("b"))}, map[string]cty.Value{"secret": m(s("a"))}},
+		{`{ "p-${secret}" = true, "p-1" = false }`, map[string]cty.Value{"secret": m(s("1"))}, map[string]cty.Value{"secret": m(s("2"))}},
+		{`{ (secret) = "n", "2" = "s" }`, map[string]cty.Value{"secret": m(cty.NumberIntVal(2))}, map[string]cty.Value{"secret": m(cty.NumberIntVal(3))}},
+		{`{ (secret) = 1, (other) = 2, b = 3 }`, map[string]cty.Value{"secret": m(s("b")), "other": s("b")}, map[string]cty.Value{"secret": m(s("a")), "other": s("b")}},
+		{`{for k in [secret, "b"] : k => k...}`, map[string]cty.Value{"secret": m(s("b"))}, map[string]cty.Value{"secret": m(s("a"))}},
 		// a marked key whose type is not the collection's own key type (the index operator converts it first)
 		{`["a", "b"][secret]`, map[string]cty.Value{"secret": m(s("0"))}, map[string]cty.Value{"secret": m(s("1"))}},
 		{`xs[secret]`, map[string]cty.Value{"secret": m(s("0")), "xs": lst(s("a"), s("b"))}, map[string]cty.Value{"secret": m(s("1")), "xs": lst(s("a"), s("b"))}},
